@@ -1,7 +1,9 @@
 """Subprocess entry point for one shard of a check."""
 import importlib
 import json
+import os
 import sys
+import threading
 
 from vlib import core
 
@@ -15,6 +17,11 @@ def main():
     getattr(mod, spec["func"])(ctx, **spec["args"])
     with open(out, "w") as f:
         json.dump(ctx.dump(), f, default=repr)
+        f.flush()
+        os.fsync(f.fileno())
+    # checks on threaded code may leave non-daemon threads of the code under test behind
+    if any(t is not threading.main_thread() and t.is_alive() and not t.daemon for t in threading.enumerate()):
+        os._exit(0)
 
 
 if __name__ == "__main__":
